@@ -352,13 +352,19 @@ def run(ctx):
                     what="contract sites of the DS9 writer",
                     floor=None if handmade else 1)
     # ---------------------------------------------------------------- R5
-    ctx.rule("C12-R5", ".mim round trip: Region defines no pickling hook; "
+    pickle_rule(ctx, ci, "C12-R5")
+
+
+def pickle_rule(ctx, ci, rule):
+    """save / load is a plain pickle of the object (shared by C12-R5 and
+    C08-R15)"""
+    ctx.rule(rule, ".mim round trip: Region defines no pickling hook; "
              "save dumps self and load returns what the same pickle module "
              "loads")
     hooks = [m for m in ci.methods if m in ("__getstate__", "__setstate__",
                                             "__reduce__", "__reduce_ex__",
                                             "__getnewargs__", "__slots__")]
-    ctx.check("C12-R5", "regions.Region", "pickling hooks", not hooks,
+    ctx.check(rule, "regions.Region", "pickling hooks", not hooks,
               "Region customises pickling (%s): fields may be dropped on a "
               "save/load round trip" % hooks)
     sv, ld = ci.methods.get("save"), ci.methods.get("load")
@@ -371,7 +377,7 @@ def run(ctx):
     ok = len(dumps) == 1 and len(loads) == 1 and \
         norm(dumps[0].func.value) == norm(loads[0].func.value) and \
         dumps[0].args and norm(dumps[0].args[0]) == "self"
-    ctx.check("C12-R5", sv, "save/load pickle pairing", ok,
+    ctx.check(rule, sv, "save/load pickle pairing", ok,
               "save must dump `self` with the same pickle module load uses; "
               "found dump=%s load=%s" % ([norm(c) for c in dumps],
                                          [norm(c) for c in loads]),
@@ -383,6 +389,6 @@ def run(ctx):
             (isinstance(s.value, ast.Name) and loads and
              _resolve_local(ld.node, s.value) is loads[0]))
         for s in rets) if loads else False
-    ctx.check("C12-R5", ld, "load returns the unpickled object", okr,
+    ctx.check(rule, ld, "load returns the unpickled object", okr,
               "load must return the object produced by the pickle load",
               node=rets[0] if rets else ld.node)
